@@ -15,6 +15,8 @@ structure St where
   sp : DBSpec.SpecSt := {}
   /-- armed write fault for the next commit: index of the record whose write fails -/
   fault : Option Nat := none
+  /-- `backup <n>`: the data files and the spec state at that moment (the copy is opened later) -/
+  backups : List (Nat × List File × Nuts.Spec.DB.SpecDB) := []
   deriving Inhabited
 
 def showRec (o : Option Rec) : String :=
@@ -187,9 +189,14 @@ def stepModel (st : St) (cmd : String) (impl : String) : St × Verdict :=
       | .panic => "open=panic"
     let head := match payload.splitOn " open=" with | h :: _ => h | [] => ""
     (st, v ("ok " ++ head ++ " " ++ pred) s!"image/{field "event"}/{field "open"}")
+  | "backup" =>
+    if s.closed || !s.opened then (st, v "err" "backup/err")
+    else ({ st with backups := (N 1, s.files, st.sp.committed) :: st.backups }, v "ok" "backup/ok")
   | "backupobs" =>
-    -- the copy made by Backup at this point of the serial order: it must open and show this state
-    let (s', o) := openDB s.opt s.files
+    -- the copy made by Backup (at `backup <n>`, or — concurrent runs — at this point of the serial order):
+    -- it must open and show the state of that moment
+    let files := match st.backups.find? (·.1 == N 1) with | some b => b.2.1 | none => s.files
+    let (s', o) := openDB s.opt files
     let pred := match o with
       | .ok _ => "open=ok obs=" ++ obs s' (N 2)
       | .err => "open=err"
